@@ -69,3 +69,136 @@ def accessor_kind_rule(ck, facts, rule, crates=None):
         else:
             ck.ok(rule, "impl Term for %s: kinds %s, accessors overridden" % (i["self_ty"], sorted(ks)))
     return n
+
+
+# --------------------------------------------------------------------------- kind predicates, decided per variant
+
+KIND_ENUM = "sophia_api::term::TermKind"
+
+
+def kind_predicate(facts, fn, depth=3):
+    """Decide a *kind predicate* (a bool-valued function of a term that looks only at `kind()`), for every TermKind
+    variant V: the boolean it returns when every `kind()` call on its receiver yields V.  Written forms accepted:
+    `matches!(self.kind(), A | B)` (switch on the discriminant), `self.kind() == A`, `!=`, `||`/`&&` combinations,
+    and calls to other kind predicates on the same receiver (`self.is_iri() || self.is_blank_node()`), which are
+    decided recursively.  Returns {variant: bool}, or None when the result depends on anything else.
+    This is evaluation of a finite abstraction (five cases) over the MIR, not execution."""
+    adt = facts.adts.get(KIND_ENUM)
+    if adt is None:
+        return None
+    discr = {v["name"]: int(v["discr"]) for v in adt["variants"]}
+    out = {}
+    for V in discr:
+        r = _eval_kind_pred(facts, fn, V, discr, depth)
+        if r is None:
+            return None
+        out[V] = r
+    return out
+
+
+def _eval_kind_pred(facts, fn, V, discr, depth):
+    env = {}
+
+    def deref(v):
+        while isinstance(v, tuple) and v[0] == "ref":
+            v = v[1]
+        return v
+
+    def val(op):
+        if op[0] == "k":
+            c = op[1]
+            if c.get("kind") == "int":
+                return int(c["v"])
+            if c.get("kind") == "enumref" and c.get("enum") == KIND_ENUM:
+                return ("ref", ("enum", c["variant"]))
+            m = re.search(r"TermKind::(\w+)$", c.get("dbg", "")) if "TermKind" in c.get("ty", "") else None
+            if m and not c.get("ty", "").startswith("&"):
+                return ("enum", m.group(1))
+            return None
+        p = op[1]
+        v = env.get(p[0], ("param", p[0]) if 1 <= p[0] <= fn.argc else None)
+        for proj in p[1:]:
+            if proj == "*":
+                v = v[1] if isinstance(v, tuple) and v[0] == "ref" else v
+            else:
+                return None
+        return v
+    bi, steps = 0, 0
+    while steps < 400:
+        steps += 1
+        b = fn.blocks[bi]
+        for s in b["s"]:
+            if s[0] != "=" or len(s[1]) != 1:
+                continue
+            d, rv = s[1][0], s[2]
+            if rv[0] == "use":
+                env[d] = val(rv[1])
+            elif rv[0] == "ref":
+                inner = val(["c", rv[2]])
+                env[d] = ("ref", inner) if inner is not None else None
+            elif rv[0] == "discr":
+                v = deref(val(["c", rv[1]]))
+                env[d] = discr.get(v[1]) if isinstance(v, tuple) and v[0] == "enum" else None
+            elif rv[0] == "agg" and rv[1].get("def", "").endswith("term::TermKind"):
+                env[d] = ("enum", rv[1]["vname"])
+            elif rv[0] == "bin":
+                a, c = deref(val(rv[2])), deref(val(rv[3]))
+                if isinstance(a, tuple) and isinstance(c, tuple) and a[0] == c[0] == "enum" and rv[1] in ("Eq", "Ne"):
+                    env[d] = int((a[1] == c[1]) == (rv[1] == "Eq"))
+                elif isinstance(a, int) and isinstance(c, int):
+                    r = {"Eq": a == c, "Ne": a != c, "Lt": a < c, "Le": a <= c, "Gt": a > c, "Ge": a >= c,
+                         "BitAnd": a & c, "BitOr": a | c, "BitXor": a ^ c}.get(rv[1])
+                    env[d] = None if r is None else int(r)
+                else:
+                    env[d] = None
+            elif rv[0] == "un" and rv[1] == "Not":
+                a = val(rv[2])
+                env[d] = 1 - a if a in (0, 1) else None
+            elif rv[0] == "cast":
+                env[d] = val(rv[2]) if isinstance(val(rv[2]), int) else None
+            else:
+                env[d] = None
+        t = b["t"]
+        k = t["t"]
+        if k == "goto":
+            bi = t["to"]
+        elif k == "switch":
+            v = val(t["on"])
+            if not isinstance(v, int):
+                return None
+            nxt = t["else"]
+            for sv, tb in t["vals"]:
+                if int(sv) == v:
+                    nxt = tb
+            bi = nxt
+        elif k == "ret":
+            r = env.get(0)
+            return bool(r) if r in (0, 1) else None
+        elif k == "call":
+            if t["to"] is None or len(t["dest"]) != 1:
+                return None
+            name = t["f"].get("name") or ""
+            args = [deref(val(a)) for a in t["args"]]
+            res = None
+            recv_is_subject = bool(args) and isinstance(args[0], tuple) and args[0][0] == "param"
+            if re.search(r"Term>?::kind$", name) and recv_is_subject:
+                res = ("enum", V)
+            elif call_name_matches(t, r"cmp::PartialEq(<.*>)?>?::(eq|ne)$") and len(args) == 2 \
+                    and all(isinstance(a, tuple) and a[0] == "enum" for a in args):
+                res = int((args[0][1] == args[1][1]) == name.endswith("::eq"))
+            elif recv_is_subject and len(args) == 1 and fn.locals[t["dest"][0]]["ty"] == "bool" and depth > 0:
+                callee = facts.fns.get(t["f"].get("res") or "") or facts.fns.get(t["f"].get("def") or "")
+                if callee is not None and callee is not fn:
+                    r = _eval_kind_pred(facts, callee, V, discr, depth - 1)
+                    res = None if r is None else int(r)
+            elif call_name_matches(t, r"Deref>?::deref$|Borrow<.*>>?::borrow$|AsRef<.*>>?::as_ref$|clone::Clone>?::clone$") and args:
+                res = args[0]
+            if res is None:
+                return None
+            env[t["dest"][0]] = res
+            bi = t["to"]
+        elif k in ("drop", "assert"):
+            bi = t["to"]
+        else:
+            return None
+    return None
